@@ -14,7 +14,7 @@ RecOK(ev) ==
      /\ ev.ex = w.ex /\ ev.idle = w.idle /\ ev.freq = w.freq                  \* attributes bound to the right key
      /\ ev.key_ok /\ ev.type_ok /\ ev.payload_ok                              \* name, type, byte-exact checksummed payload
   /\ ev.i = seen + 1                                                          \* in file order, none skipped
-EndOK(ev) == ~ev.err /\ ev.records = Len(want) /\ seen = Len(want) /\ ev.footer_ok /\ ev.chunks_ok
+EndOK(ev) == ~ev.err /\ ev.records = Len(want) /\ seen = Len(want) /\ ev.footer_ok /\ ev.chunks_ok /\ ev.held_ok
 EventOK(ev) == CASE ev.e = "rec" -> RecOK(ev) [] ev.e = "end" -> EndOK(ev) [] OTHER -> TRUE
 TInit == l = 1 /\ bad = 0 /\ want = <<>> /\ seen = 0
 TNext == /\ l <= Len(Trace) /\ l' = l + 1
